@@ -156,6 +156,7 @@ structure ParamTable where
   manualKeys : List String           -- keys read by hand-written `p.get("k", …)` / `p.count("k")` in the constructor
   checks     : List Check            -- executed check_params calls (base's first)
   exports    : List (String × Via)   -- AMGCL_PARAMS_EXPORT_VALUE/CHILD in `get` order
+  exportParams : List String         -- the parameter names of `get(ptree &p, const std::string &path)`
   derivedOwn : List String           -- members declared by structs deriving from this one
   emptyLike  : Bool                  -- `detail::empty_params`: no members, every key is reported
 deriving Repr, Inhabited
@@ -168,6 +169,12 @@ def importChild (t : ParamTable) : List String := (t.imports.filter (·.2 = Via.
 def exportValue (t : ParamTable) : List String := (t.exports.filter (·.2 = Via.value)).map (·.1)
 def exportChild (t : ParamTable) : List String := (t.exports.filter (·.2 = Via.child)).map (·.1)
 def kindOf (t : ParamTable) (n : String) : Option Kind := (t.fields.find? (·.name = n)).map (·.kind)
+/-- is `n` exported by this struct's own `get` (inherited members are exported by the base's `get`, whose parameter
+names are checked in the base's table) -/
+def declaredHere (t : ParamTable) (n : String) : Bool :=
+  match t.fields.find? (·.name = n) with
+  | some f => f.origin = t.name
+  | none => true
 
 end ParamTable
 
@@ -223,9 +230,12 @@ def importTyped (t : ParamTable) : Bool :=
     | _, _ => false
 
 /-- export side well-typed: `EXPORT_CHILD` calls `member.get(p, path)`, which exists only on child members;
-`EXPORT_VALUE` streams the member.  (This is what `deflated_solver::params::get` violated.) -/
+`EXPORT_VALUE` streams the member (this is what `deflated_solver::params::get` violated); and inside `get` an
+exported name must denote the member, i.e. must not be shadowed by one of `get`'s own parameters
+(`ilut::params::get(ptree &p, …)` with a member called `p` expands to `p.put(path + "p", p)`, which streams the
+property tree itself and does not compile).  `exportParams` are the parameter names of this struct's own `get`. -/
 def exportTyped (t : ParamTable) : Bool :=
-  t.exports.all fun (n, via) => match t.kindOf n, via with
+  t.exports.all fun (n, via) => !(t.declaredHere n && t.exportParams.contains n) && match t.kindOf n, via with
     | some Kind.child, Via.child => true
     | some Kind.child, Via.value => false
     | some _, Via.value => true
@@ -237,7 +247,8 @@ def wellTyped (t : ParamTable) : Bool := t.importTyped && t.exportTyped
 1. identifiers: no `.` in any member / imported / exported name (paths split at dots), no duplicate members,
    no name imported or exported twice;
 2. import and export are well-typed (kind of macro matches kind of member);
-3. every value/enum member is imported by `IMPORT_VALUE` or read by hand (`nullspace_params.cols`);
+3. every value/enum member is imported by `IMPORT_VALUE` (an `exportExempt` one may instead be read by hand:
+   `nullspace_params.cols`);
 4. every non-exempt value/enum member is exported by `EXPORT_VALUE`;
 5. every child member is imported and exported as a child;
 6. every pointer member can be set: imported as (hex) value or read by hand under its own name;
@@ -252,7 +263,8 @@ def consistentB (t : ParamTable) : Bool :=
   -- 2
   t.wellTyped &&
   -- 3
-  t.settableFields.all (fun n => t.importValue.contains n || t.manualKeys.contains n) &&
+  t.settableFields.all (fun n => t.importValue.contains n ||
+    ((exportExempt t.name).contains n && t.manualKeys.contains n)) &&
   -- 4
   t.valueFields.all (fun n => t.exportValue.contains n) &&
   -- 5
@@ -260,7 +272,7 @@ def consistentB (t : ParamTable) : Bool :=
   -- 6
   t.pointerFields.all (fun n => t.importValue.contains n || t.manualKeys.contains n) &&
   -- 7
-  (if t.emptyLike then t.fields.isEmpty && t.checks.isEmpty && t.imports.isEmpty && t.exports.isEmpty
+  (if t.emptyLike then t.understood.isEmpty && t.checks.isEmpty && t.imports.isEmpty && t.exports.isEmpty
    else !t.checks.isEmpty && t.checks.all (fun c => sameSet c.names t.understood))
 
 def Consistent (t : ParamTable) : Prop := t.consistentB = true
